@@ -192,7 +192,7 @@ class Lockstep:
         except Exception as exc:
             self.count('op:%s:raised' % label)
             after = self.snapshot()
-            if after != before:
+            if after != before and getattr(self, 'strict_raise', True):
                 diff = [k for k in before if before[k] != after[k]]
                 raise Divergence('model.%s:state-changed-by-raising-operation' % label,
                                  'operation raised %r but the observable state changed (%s)' % (exc, diff))
@@ -200,7 +200,33 @@ class Lockstep:
         self.count('op:%s:invalid-accepted' % label)
         return False
 
-    def op_add_asset(self, typ, name, aid, allow_dup):
+    def op_re_add_asset(self, ref):
+        """an asset that is in the model is passed to add_asset again under its own id: the id is in use,
+        the call is refused (or, if accepted, the model must still be consistent) and nothing may change"""
+        sh, m = self.sh, self.model
+        a = self._pick(ref, sh.assets, sh.dead_assets)
+        if a is None or ref[0] != 'live':
+            return
+        obj = self.real[a.key]
+        self._expect_raise('add_asset-already-in-model', lambda: m.add_asset(obj, asset_id=int(obj.id)))
+        if any(s2 for s2 in sh.assocs if a.key in s2.left or a.key in s2.right):
+            self.count('class:refused-add-of-a-linked-asset')
+
+    def op_add_ep_empty(self, tref, aref):
+        """an entry point without steps, put there directly (the attachment's list is a public field;
+        AttackerAttachment(entry_points=[(asset, [])]) and a file with attack_steps: [] give the same)"""
+        sh = self.sh
+        t = self._pick(tref, sh.attackers, sh.dead_attackers)
+        a = self._pick(aref, sh.assets, sh.dead_assets)
+        if t is None or a is None or tref[0] != 'live' or aref[0] != 'live':
+            return
+        if any(k == a.key for k, _st in t.eps):
+            return
+        self.real[t.key].entry_points.append((self.real[a.key], []))
+        t.eps.append((a.key, []))
+        self.count('op:entry-point-without-steps')
+
+    def op_add_asset(self, typ, name, aid, allow_dup, id_form='int'):
         sh, m = self.sh, self.model
         cls = getattr(self.factory.ns, typ)
         obj = cls(name=name) if name is not None else cls()
@@ -221,6 +247,13 @@ class Lockstep:
         kwargs = {}
         if aid is not None:
             kwargs['asset_id'] = aid
+            if id_form == 'pjs':
+                # the id as another asset's .id attribute reads (model.add_asset(new, asset_id=old.id)):
+                # an integer-valued schema object, not an int
+                tmp = cls()
+                tmp.id = aid
+                kwargs['asset_id'] = tmp.id
+                self.count('class:explicit-id-given-as-schema-integer')
         if not allow_dup:
             kwargs['allow_duplicate_names'] = False
         if id_taken or (name_taken and not allow_dup):
@@ -707,7 +740,9 @@ def gen_history(rng, lang, n, invalid=0.2, names=None, attackers=True):
                 name = '%s:%d' % (typ, rng.choice([0, 1, 2, 3]))     # what an unnamed asset would be called
             elif rng.random() < 0.02:
                 name = rng.choice(['n' * 300, ' padded ', '0123456789' * 13, 'e\u0301', '1', 'true'])
-            ops.append(['add_asset', typ, name, aid, rng.random() < 0.8])
+            ops.append(['add_asset', typ, name, aid, rng.random() < 0.8] + (['pjs'] if aid is not None and rng.random() < 0.3 else []))
+        elif r < 0.30:
+            ops.append(['re_add_asset', rref(rng, 0)])
         elif r < 0.40:
             ops.append(['remove_asset', rref(rng, 0.5 if bad else 0.0)])
         elif r < 0.62:
@@ -732,6 +767,8 @@ def gen_history(rng, lang, n, invalid=0.2, names=None, attackers=True):
             ops.append(['add_attacker', rng.choice([None, None, 'Eve', 'Mallory']), None if rng.random() < 0.7 else rng.choice([20, 21, 30, 0])])
         elif r < 0.92:
             ops.append(['remove_attacker', rref(rng, 0.4 if bad else 0.0)])
+        elif r < 0.925:
+            ops.append(['add_ep_empty', rref(rng, 0), rref(rng, 0)])
         elif r < 0.97:
             ops.append(['add_ep', rref(rng, 0), rref(rng, 0), rng.randrange(16)])
         else:
